@@ -167,6 +167,21 @@ PROPS["C16"] = dict(
     trusted=COMMON_TRUST, excluded=["mark_connected's attempt-counter reset and last_connected stamp"],
 )
 
+PROPS["C11"] = dict(
+    units=["coalesce"],
+    title="Coalesce: one inner call per key, shared result",
+    level_text="Deductive proof (Verus) on the real bodies of InFlight::{try_join,complete,cancel} (whole-map postconditions over the HashMap: join changes nothing and subscribes to that key's channel; the first request registers a "
+               "fresh channel and touches no other key; complete/cancel free exactly that key; the result is sent on the channel registered under its own key, cancel sends nothing), CoalesceService::call (a waiter makes no inner call; "
+               "the leader makes exactly one, with the request, and owns the key the extractor returns), CoalesceFuture::poll (leader: completes its key exactly once with a clone of the inner result and returns that result; "
+               "pending keeps the registration; waiter touches neither inner service nor map) and its Drop (a dropped leader frees its key without sending; a completed one does not cancel).",
+    level_note="Known finding: a synchronous panic of inner.call() in the leader leaves the key registered (obligation ledger). 'key in map iff exactly one live leader holds it' is the induction over these contracts (meta-argument). "
+               "hashbrown::HashMap read as std HashMap; parking_lot Mutex sections atomic; tokio broadcast contract assumed.",
+    technique="contract-based deductive verification (Verus): abstract-map contracts on the in-flight registry + obligation ledger on call/poll/drop",
+    design_ref="§6 C11",
+    assumptions=["tokio broadcast: send reaches every subscriber of that channel, dropping the last sender closes it", "parking_lot Mutex critical sections are atomic", "K obeys the hash-map key model", "Clone yields an equal value"],
+    trusted=COMMON_TRUST, excluded=["liveness: 'no request waits forever / promptly' (busy-poll wake-ups, broadcast delivery)"],
+)
+
 NOT_APPLICABLE = {
     "C12": "not built: hedge's body is a tokio::select! loop over spawned tasks; needs the select!/spawn rewrite R17 (DESIGN §7); nothing weaker is claimed in its place",
 }
